@@ -70,6 +70,12 @@ const HOSTILE: &[&str] = &[
     "semi;colon;;",
     "",
     "x",
+    "ideographic space after\u{3000}",
+    "\u{3000}ideographic space before",
+    "no-break space after\u{a0}",
+    "\u{2003}em space around\u{2003}",
+    "line separator\u{2028}inside",
+    "next line\u{85}",
 ];
 
 const CATEGORIES: &[&str] = &["Buy", "Sell", "Reinvest Dividend", "Groceries", "Credit Interest", ""];
@@ -101,6 +107,8 @@ fn gen_rules(rng: &mut Rng, rich: bool, has_category: bool, has_sec: bool) -> Ve
         ".*",
         "cashback|Wire",
         "(?P<payee>[A-Z]+) AG",
+        "Wire(?P<code>\\d*) (?P<payee>.*)",
+        "(?P<code>x?)(?P<payee>Migros.*)",
     ];
     let accounts = [
         "Expenses:Grocery",
@@ -318,10 +326,12 @@ fn gen_sc(rng: &mut Rng, flavour: u8) -> Sc {
     let mut docs: Vec<Doc> = Vec::new();
     if flavour == 17 {
         // layered documents: the shortest matching path carries the required settings
-        let more_paths = ["bank/okane", "okane/2024-", "2024-stmt.csv", "in/bank/okane/2024-stmt", "nomatch/", "other.csv", "okane/2023"];
+        // "okane/2024" ties with "bank/okane", "/bank" with the base's "bank/" and "stmt.csv" with
+        // nothing that applies: documents with equally long paths all take part, in either order
+        let more_paths = ["bank/okane", "okane/2024-", "2024-stmt.csv", "in/bank/okane/2024-stmt", "nomatch/", "other.csv", "okane/2023", "okane/2024", "/bank", "stmt.csv"];
         let mut chosen: Vec<&str> = Vec::new();
         for p in more_paths {
-            if rng.chance(2, 5) {
+            if rng.chance(1, 3) {
                 chosen.push(p);
             }
         }
@@ -548,6 +558,10 @@ fn effective(sc: &Sc) -> Result<Effective, &'static str> {
         Some(None) => return Err("no document applies"),
         Some(Some(d)) => d,
     };
+    effective_doc(&merged)
+}
+
+fn effective_doc(merged: &Doc) -> Result<Effective, &'static str> {
     let fmt = merged.format.clone().ok_or("no format")?;
     Ok(Effective {
         account: merged.account.clone().ok_or("no account")?,
@@ -597,7 +611,11 @@ fn import_statement(sc: &Sc, k: usize, out: &mut RunOut, rule_prefix: &str) -> O
     let yaml = docs_yaml(&sc.docs);
     let csv_text = render_csv(&sc.layout, &sc.statements[k]);
     // the bank writes the file in the encoding the configuration (as merged per the statement) declares
-    let enc_label = effective(sc).map(|e| e.encoding).unwrap_or_else(|_| "UTF-8".to_string());
+    // (documents with equally long paths never both carry an encoding: every admissible merge agrees)
+    let enc_label = crate::imp::merge_candidates(&sc.docs, &sc.file)
+        .and_then(|c| c.first().cloned())
+        .and_then(|d| d.encoding)
+        .unwrap_or_else(|| "UTF-8".to_string());
     let enc = encoding_rs::Encoding::for_label(enc_label.as_bytes()).unwrap_or(encoding_rs::UTF_8);
     let (bytes, _, unmappable) = enc.encode(&csv_text);
     if unmappable {
@@ -1285,40 +1303,64 @@ impl Check for C17 {
         let n_match = sc.docs.iter().filter(|d| sc.file.contains(&d.path)).count();
         out.add("probe.documents", sc.docs.len() as u64);
         out.add("probe.documents-applying", n_match as u64);
-        let eff = match effective(sc) {
+        let candidates = match crate::imp::merge_candidates(&sc.docs, &sc.file) {
+            None => {
+                out.count("dc.more than 24 admissible document orders");
+                return;
+            }
+            Some(c) if c.is_empty() => {
+                out.count("dc.no document applies");
+                return;
+            }
+            Some(c) => c,
+        };
+        if candidates.len() > 1 {
+            out.count("probe.documents-with-equally-long-paths");
+        }
+        // (a) select(multi-document) == select(a single document holding a merge the statement admits)
+        let yaml_multi = docs_yaml(&sc.docs);
+        let yaml_ones: Vec<String> = candidates.iter().map(|m| docs_yaml(std::slice::from_ref(m))).collect();
+        let p0 = &sc.procs[0];
+        let files = Rc::new(BTreeMap::new());
+        let vfs = make_vfs(&files, &Default::default(), p0, Date::new(2024, 6, 15));
+        let file = sc.file.clone();
+        let rd = crate::vfs::ChunkReader::new(yaml_multi.clone().into_bytes(), p0.read_chunks.clone(), None);
+        let cmp = crate::exec::in_process(&vfs, p0.hash_seed, || -> Result<(usize, String, String), String> {
+            let a = okane::import::config::load_from_yaml(rd).map_err(|e| e.to_string())?;
+            let ea = a.select(std::path::Path::new(&file)).map_err(|e| e.to_string())?;
+            let mut first_diff = (String::new(), String::new());
+            for (i, yaml_one) in yaml_ones.iter().enumerate() {
+                let b = okane::import::config::load_from_yaml(yaml_one.as_bytes()).map_err(|e| e.to_string())?;
+                let eb = b.select(std::path::Path::new(&file)).map_err(|e| e.to_string())?;
+                let d = match (&ea, eb) {
+                    (Some(x), Some(y)) => {
+                        if *x == y {
+                            return Ok((i, String::new(), String::new()));
+                        }
+                        // rule lists hold hash maps: compare the Debug form of everything else first
+                        (format!("{:#?}", x), format!("{:#?}", y))
+                    }
+                    (x, y) => (format!("{:?}", x.is_some()), format!("{:?}", y.is_some())),
+                };
+                if i == 0 {
+                    first_diff = d;
+                }
+            }
+            Ok((usize::MAX, first_diff.0, first_diff.1))
+        });
+        out.count("processes");
+        let chosen = match &cmp {
+            Ok(Ok((i, _, _))) if *i != usize::MAX => *i,
+            _ => 0,
+        };
+        let eff = match effective_doc(&candidates[chosen]) {
             Ok(e) => e,
             Err(why) => {
                 out.count(&format!("dc.{}", why));
                 return;
             }
         };
-        // (a) select(multi-document) == select(the model's merged single document)
-        let merged = merge_docs(&sc.docs, &sc.file).flatten().unwrap();
-        let yaml_multi = docs_yaml(&sc.docs);
-        let yaml_one = docs_yaml(std::slice::from_ref(&merged));
-        let p0 = &sc.procs[0];
-        let files = Rc::new(BTreeMap::new());
-        let vfs = make_vfs(&files, &Default::default(), p0, Date::new(2024, 6, 15));
-        let file = sc.file.clone();
-        let rd = crate::vfs::ChunkReader::new(yaml_multi.clone().into_bytes(), p0.read_chunks.clone(), None);
-        let cmp = crate::exec::in_process(&vfs, p0.hash_seed, || -> Result<(String, String), String> {
-            let a = okane::import::config::load_from_yaml(rd).map_err(|e| e.to_string())?;
-            let b = okane::import::config::load_from_yaml(yaml_one.as_bytes()).map_err(|e| e.to_string())?;
-            let ea = a.select(std::path::Path::new(&file)).map_err(|e| e.to_string())?;
-            let eb = b.select(std::path::Path::new(&file)).map_err(|e| e.to_string())?;
-            match (ea, eb) {
-                (Some(x), Some(y)) => {
-                    if x == y {
-                        Ok((String::new(), String::new()))
-                    } else {
-                        // rule lists hold hash maps: compare the Debug form of everything else first
-                        Ok((format!("{:#?}", x), format!("{:#?}", y)))
-                    }
-                }
-                (x, y) => Ok((format!("{:?}", x.is_some()), format!("{:?}", y.is_some()))),
-            }
-        });
-        out.count("processes");
+        let cmp = cmp.map(|r| r.map(|(i, a, b)| if i == usize::MAX { (a, b) } else { (String::new(), String::new()) }));
         match cmp {
             Ok(Ok((a, b))) if a.is_empty() && b.is_empty() => out.count("probe.select-equals-model-merge"),
             Ok(Ok((a, b))) => out.violate_keyed(
@@ -1418,7 +1460,7 @@ impl Check for C17 {
 
     fn assumptions(&self) -> Vec<&'static str> {
         vec![
-            "documents with equally long paths are DONT_CARE ('shortest first' says nothing about ties)",
+            "documents with equally long paths may merge in either order ('shortest first' says nothing about ties), but each of them takes part: the result must equal one of the admissible merges",
             "`format` is set by one document only (whether formats merge or replace is not stated)",
         ]
     }
